@@ -9,7 +9,7 @@
    reproduces byte for byte. *)
 From Coq Require Import String NArith List Bool.
 From RC Require Import lib.Result model.Layout model.TrigTable model.RichCodec model.Str model.StrEditor model.Alloc
-  proofs.C04_proofs proofs.C04_readback proofs.C04_locations proofs.C04_cuwps proofs.C07_triggers proofs.C07_slots model.RichIo proofs.C08_proofs proofs.C09_proofs proofs.Save_strings proofs.Save_refs gen.GenTrig spec.SpecTrig gen.GenFlags gen.GenConsts.
+  proofs.C04_proofs proofs.C04_readback proofs.C04_locations proofs.C04_cuwps proofs.C04_reload model.ChkIo proofs.C07_triggers proofs.C07_slots model.RichIo proofs.C08_proofs proofs.C09_proofs proofs.Save_strings proofs.Save_refs gen.GenTrig spec.SpecTrig gen.GenFlags gen.GenConsts.
 Import ListNotations.
 Local Open Scope N_scope.
 
@@ -155,3 +155,32 @@ Theorem C04_a_loaded_unit_property_table_has_one_set_per_number :
   forall v cs, uprp_decode v = Ok cs -> NoDup (map fst (cby_idx cs)).
 Proof. exact loaded_uprp_table_has_one_set_per_number. Qed.
 Print Assumptions C04_a_loaded_unit_property_table_has_one_set_per_number.
+
+(* "Loading the saved map returns rich objects equal to the authored ones", end to end for plain arguments (numbers, enumeration
+   members, strings, AI scripts): the load of the SAVED map builds its string lookup from the very table the save encoded
+   against, so the action is read back by that load with exactly the authored arguments *)
+Theorem C04_the_reload_reads_strings_through_the_saved_table :
+  forall wd r d' cx', save wd r = Ok d' -> decode_context d' = Ok cx' ->
+    exists new_str L, rebuild_str r = Ok new_str /\ build_str_lookup 2 new_str = Ok L /\ cx_str cx' = L.
+Proof. exact load_after_save_uses_the_saved_string_table. Qed.
+Print Assumptions C04_the_reload_reads_strings_through_the_saved_table.
+
+Theorem C04_a_plain_action_survives_save_and_reload :
+  forall wd r d' cx' cx new_str L key args fl v,
+    save wd r = Ok d' -> decode_context d' = Ok cx' ->
+    rebuild_str r = Ok new_str -> build_str_lookup 2 new_str = Ok L -> cx_str cx = L ->
+    (N.of_nat (length (sl_by_id L)) <= 1000000)%N ->
+    encode_entry_of cx gen_action_table action_flags_codec action_record_fields (ERich key args fl) = Ok v ->
+    length fl = 5%nat ->
+    (forall te a c f, find_entry key gen_action_table = Some te -> In (a, c, f) (te_dec te) -> plain_codec c = true) ->
+    (forall te a c f x, find_entry key gen_action_table = Some te -> In (a, c, f) (te_dec te) -> arg_get rarg a args = Ok x ->
+       arg_member c x) ->
+    exists te args',
+      find_entry key gen_action_table = Some te /\
+      decode_entry_of cx' gen_action_table "TriggerActionId" "_action_id" action_flags_codec action_record_fields v
+        = Ok (Some (ERich key args' fl)) /\
+      forall a c f, In (a, c, f) (te_dec te) ->
+        arg_get rarg a args' = arg_get rarg a args \/
+        (exists d, wav_duration cx args = Ok d /\ arg_get rarg a args' = Ok (AInt d)).
+Proof. exact plain_action_survives_save_and_reload. Qed.
+Print Assumptions C04_a_plain_action_survives_save_and_reload.
